@@ -25,6 +25,10 @@ and of the pickled stub.  TraceC04.tla replays each recorded session through the
 action and gives the verdict (which parts differ, and which circumstance - hash seed, earlier
 work, loader mode - distinguishes the closest differing observation); error reports must be
 sorted and unique.
+
+Beside the sessions runs the error-log family (c04_errorlog.py, ErrorLog.tla / TraceErrorLog.tla):
+"unique and sorted" and the checkpoint discipline of the real errors.ErrorLog for ALL bounded
+histories of its operations (violation keys C04:errorlog:<clause>:<op>).
 """
 import argparse
 import concurrent.futures as cf
